@@ -157,7 +157,7 @@ func oddAuthenticNTS(t *rapid.T, v *victim) []byte {
 		return f
 	}
 	b := ntpHeader(t)
-	uidLen := rapid.SampledFrom([]int{32, 32, 33, 64, 200, 600, 1000, 1100, 1150, 1190, 1200, 1500}).Draw(t, "uidlen")
+	uidLen := rapid.SampledFrom([]int{32, 32, 33, 64, 200, 600, 1000, 1100, 1150, 1190, 1200, 1500, 0, 1, 4, 24, 28, 31}).Draw(t, "uidlen")
 	b = append(b, field(0x104, bytes.Repeat([]byte{0x5a}, uidLen))...)
 	b = append(b, field(0x204, enc.Encode())...)
 	for i := rapid.SampledFrom([]int{0, 0, 1, 3}).Draw(t, "extracookies"); i > 0; i-- {
@@ -353,9 +353,25 @@ func cmsgBody(t *rapid.T, near ...time.Time) []byte {
 func patchSCION(t *rapid.T, raw []byte) ([]byte, string) {
 	note := ""
 	for k := rapid.IntRange(0, 2).Draw(t, "npatch"); k > 0 && len(raw) > 12; k-- {
-		switch rapid.SampledFrom([]string{"addrtypes", "pathtype", "hdrlen", "payloadlen", "nexthdr", "udplen", "truncate", "version", "bytes"}).Draw(t, "patch") {
+		switch rapid.SampledFrom([]string{"addrtypes", "svc-src", "svc-dst", "pathtype", "hdrlen", "payloadlen", "nexthdr", "udplen", "truncate", "version", "bytes"}).Draw(t, "patch") {
+		case "svc-src": // a service address where a host address is expected: same length as IPv4, everything else intact
+			if raw[9]&0x0f == 0x00 {
+				raw[9] |= 0x04
+			}
+			note += "svc-src;"
+		case "svc-dst":
+			if raw[9]&0xf0 == 0x00 {
+				raw[9] |= 0x40
+			}
+			note += "svc-dst;"
 		case "addrtypes":
-			raw[9] = rapid.Byte().Draw(t, "dtdlstsl")
+			// address type/length nibbles (destination, source): IPv4, IPv6, service address (same length as IPv4,
+			// so the packet stays well-formed), unassigned types and lengths
+			nib := rapid.SampledFrom([]byte{0x0, 0x3, 0x4, 0x4, 0x1, 0x2, 0x5, 0x7, 0x8, 0xc, 0xf})
+			raw[9] = nib.Draw(t, "dtdl")<<4 | nib.Draw(t, "stsl")
+			if rapid.IntRange(0, 3).Draw(t, "anybyte") == 0 {
+				raw[9] = rapid.Byte().Draw(t, "dtdlstsl")
+			}
 			note += "addrtypes;"
 		case "pathtype":
 			raw[8] = byte(rapid.SampledFrom([]int{0, 1, 2, 3, 4, 5, 100, 255}).Draw(t, "ptype"))
